@@ -139,7 +139,9 @@ class AbstractBenchParser(AbstractParser, metaclass=abc.ABCMeta):
                 _operator == gate.ALWAYS_FALSE.name
                 or _operator == gate.ALWAYS_TRUE.name
             ):
-                return self._processings[_operator](_out)
+                # a constant may be written without operands (`ALWAYS_TRUE()`)
+                # or carry operands that it ignores; they are kept as written.
+                _operands = [_operand for _operand in _operands if _operand != '']
             return self._processings[_operator](_out, *_operands)
 
         except KeyError:
@@ -220,11 +222,11 @@ class AbstractBenchParser(AbstractParser, metaclass=abc.ABCMeta):
         raise NotImplementedError()
 
     @abc.abstractmethod
-    def _process_always_true(self, out: str):
+    def _process_always_true(self, out: str, *args: str):
         raise NotImplementedError()
 
     @abc.abstractmethod
-    def _process_always_false(self, out: str):
+    def _process_always_false(self, out: str, *args: str):
         raise NotImplementedError()
 
 
@@ -319,8 +321,8 @@ class BenchToCircuit(AbstractBenchParser):
     def _process_riff(self, out: str, arg1: str, arg2: str):
         return self._add_gate(out, gate.RIFF, arg1, arg2)
 
-    def _process_always_true(self, out: str):
-        return self._add_gate(out, gate.ALWAYS_TRUE)
+    def _process_always_true(self, out: str, *args: str):
+        return self._add_gate(out, gate.ALWAYS_TRUE, *args)
 
-    def _process_always_false(self, out: str):
-        return self._add_gate(out, gate.ALWAYS_FALSE)
+    def _process_always_false(self, out: str, *args: str):
+        return self._add_gate(out, gate.ALWAYS_FALSE, *args)
